@@ -424,6 +424,64 @@ def clause_b(ctx: Context) -> None:
     ctx.require_floor("C10b/c obligations (vjp specifications and cotangent orders)", n, 6)
 
 
+def _masked_singularities(tree: ast.AST) -> List[Tuple[ast.Call, ast.AST, str]]:
+    """three-argument where(mask, a, b) calls one of whose value arguments contains an operation with a singular derivative applied to
+    something that is not a literal: power with a non-literal base (0 ** 0, 0 ** k), log, sqrt, division by a non-literal, angle"""
+    out = []
+    for c in ast.walk(tree):
+        if not (isinstance(c, ast.Call) and (dotted(c.func) or "").split(".")[-1] == "where" and len(c.args) == 3):
+            continue
+        for branch in c.args[1:]:
+            for x in ast.walk(branch):
+                why = None
+                if isinstance(x, ast.Call):
+                    nm = (dotted(x.func) or "").split(".")[-1]
+                    if nm in ("power", "pow", "float_power") and x.args and not isinstance(x.args[0], ast.Constant):
+                        why = "a power of a computed base"
+                    elif nm in ("log", "log2", "log10", "sqrt", "angle", "arctan2", "reciprocal", "divide") and x.args and not isinstance(x.args[0], ast.Constant):
+                        why = f"{nm} of a computed value"
+                elif isinstance(x, ast.BinOp) and isinstance(x.op, ast.Pow) and not isinstance(x.left, ast.Constant) \
+                        and not (isinstance(x.right, ast.Constant) and isinstance(x.right.value, int) and x.right.value >= 1):
+                    why = "a power of a computed base"
+                elif isinstance(x, ast.BinOp) and isinstance(x.op, ast.Div) and not isinstance(x.right, ast.Constant):
+                    why = "a division by a computed value"
+                if why:
+                    out.append((c, x, why))
+                    break
+    return out
+
+
+def clause_e(ctx: Context) -> None:
+    """Forward maps that are differentiated by the framework (the gate-matrix builders written against connector.np): `where(mask, a, f(x))`
+    evaluates *and differentiates* f(x) on the masked entries too; when f has a singular derivative there (0 ** 0, log 0, sqrt 0, 1 / 0) the
+    cotangent of the masked branch is 0 * inf = nan and the whole gradient is nan, although every value is right."""
+    ctx.rule("C10e", "no where(mask, a, f(x)) in the differentiated forward maps hides an operation with a singular derivative (power of a computed "
+                     "base, log, sqrt, division) behind the mask: the framework differentiates both branches")
+    idx = get_index(ctx.repo)
+    fixture = ast.parse("def f(np, x, n):\n    return np.where(n == 0, 1.0, np.power(x, n))\ndef g(np, x):\n    return np.where(x > 0, 1, -1)\n")
+    if [len(_masked_singularities(f_)) for f_ in fixture.body] != [1, 0]:
+        raise AnalysisError("C10e: the rule does not behave on its inline fixture")
+    n_fn = 0
+    for mname in ("piquasso._math.gate_matrices", "piquasso._math.fock", "piquasso._simulators.fock.pure.simulation_steps",
+                  "piquasso._simulators.fock.pure.simulation_steps.passive_linear", "piquasso._simulators.fock.simulation_steps"):
+        m = idx.modules.get(mname)
+        if m is None:
+            continue
+        for fn in m.functions.values():
+            # written against the connector's array namespace
+            if not any(isinstance(a, ast.Attribute) and a.attr in ("np", "forward_pass_np") for a in ast.walk(fn.node)):
+                continue
+            n_fn += 1
+            for c, x, why in _masked_singularities(fn.node):
+                key = f"{fn.qualname}|{norm(c)[:60]}"
+                ctx.violation("C10e", key, fn.file, c.lineno,
+                              f"`{norm(c)[:90]}` masks {why} (`{norm(x)[:40]}`): the values are right, but TensorFlow / JAX differentiate the masked "
+                              f"branch as well and 0 * inf = nan poisons the gradient exactly at the masked point (e.g. a displacement with r = 0)",
+                              norm(c)[:100])
+    ctx.require_floor("C10e forward functions written against connector.np", n_fn, 10)
+    ctx.obligation("C10e", "forward maps|no masked singularity", not any(f.rule == "C10e" for f in ctx.findings), functions=n_fn)
+
+
 def run(ctx: Context) -> None:
     ctx.explanation = (
         "static / symbolic analysis of the hand-written gradient rules: numpy roll-and-weight idioms read as ladder-operator words and "
@@ -434,3 +492,4 @@ def run(ctx: Context) -> None:
                         "the rule a^dagger f(n) a = n f(n-1)"]
     clause_a(ctx)
     clause_b(ctx)
+    clause_e(ctx)
